@@ -986,8 +986,10 @@ class YAMLPath:
         prefix_str = str(prefix)
         path_str = str(path)
         if path_str.startswith(prefix_str):
-            path_str = path_str[len(prefix_str):]
-            return YAMLPath(path_str)
+            # Strip whole segments only:  /abc is no prefix of /abcd/ef
+            remainder = path_str[len(prefix_str):]
+            if not remainder or remainder[0] in ("/", "["):
+                return YAMLPath(remainder)
 
         return path
 
